@@ -97,8 +97,13 @@ class StandardGeometry(BaseGeometry):
         # take intersection closest to z = 0 (i.e., vertex of geometry)
         t = np.where(np.abs(z1) <= np.abs(z2), t1, t2)
 
-        # handle case when a = 0
-        t[a == 0] = -c[a == 0] / b[a == 0]
+        # handle case when a = 0 (a single root); like the other roots it is
+        # ignored when it lies behind the ray
+        with warnings.catch_warnings():
+            warnings.simplefilter('ignore')
+            t0 = -c / b
+        t0[t0 < 0] = np.inf
+        t[a == 0] = t0[a == 0]
 
         return t
 
